@@ -152,6 +152,15 @@ def check(run, repo, world):
                where(mod, call))
 
     check_lock_pair(run, repo, world, fns)
+    # 'every caller eventually completes': the one wait a caller makes while
+    # it holds the lock (the Tridonic sender on its event) is not entered
+    # while a report for it is already queued (shared with C17)
+    from .C17 import check_mailbox_wait, _fn as _fn17
+    o17, f17 = _fn17(world, HID + ".tridonic", "_send_raw")
+    check_mailbox_wait(run, world, repo.mod(HID), f17, CFG(
+        f17, may_raise=suspension_may_raise,
+        name=HID + ".tridonic._send_raw"), HID + ".tridonic._send_raw",
+        "R-LOCK-PAIR")
 
     # ---- R-EDT --------------------------------------------------------------
     _check_edt(run, repo, world, fns)
